@@ -299,6 +299,12 @@ func addDocument(d *indexData, ib *ShardBuilder, repoID int, docID uint32) error
 	doc.SymbolsMetaData = make([]*zoekt.Symbol, len(doc.Symbols))
 	for i := range doc.SymbolsMetaData {
 		doc.SymbolsMetaData[i] = d.symbols.data(d.fileEndSymbol[docID] + uint32(i))
+		if doc.SymbolsMetaData[i] == nil {
+			// The shard has symbol ranges without symbol metadata (documents
+			// added with Symbols only): carry the ranges over as they are.
+			doc.SymbolsMetaData = nil
+			break
+		}
 	}
 
 	// calculate branches
